@@ -14,11 +14,14 @@ Record obs := mkObs {
   ob_out : oobs;
   ob_globals : list (list N * option tval);    (* read_var_by_name for every variable name of the program *)
   ob_log : list (list tval);                   (* the host log after the run *)
-  ob_shape : option (list N)                   (* [value-stack height; call depth; #objects; #globals] (verif-hooks) *)
+  ob_shape : option (list N)                   (* [value-stack height; call depth; #objects; #globals; remaining_iters] *)
 }.
 
+(* every run on a fresh VM / all runs on one VM / all runs on one VM with Vm::clear() before every run but the first *)
+Inductive vmmode := MFresh | MReuse | MReuseClear.
+
 Inductive vmcase :=
-| VmProg (debug : bool) (fresh : bool) (P : program) (runs : list (N * obs))
+| VmProg (debug : bool) (mode : vmmode) (P : program) (runs : list (N * obs))
 | VmOpTable (names : list (list N)).
 
 Fixpoint err_eqb (a b : err) : bool :=
@@ -73,7 +76,7 @@ Definition log_matches (s : state) (l : list (list tval)) : bool :=
 
 Definition shape_of (s : state) : list N :=
   [N.of_nat (Stacks.vcount (st_stack s)); N.of_nat (length (st_calls s));
-   N.of_nat (length (st_heap s)); N.of_nat (length (st_globals s))].
+   N.of_nat (length (st_heap s)); N.of_nat (length (st_globals s)); st_rem s].
 Definition shape_matches (s : state) (o : option (list N)) : bool :=
   match o with Some l => list_eqb N.eqb (shape_of s) l | None => true end.
 
@@ -96,7 +99,7 @@ Definition flat_agrees (debug : bool) (budget : nat) (P : program) (s0 : state) 
   match mf with
   | OAbort AUnmodelled => true
   | _ =>
-      outcome_eqb mf m && list_eqb N.eqb (shape_of sf) (shape_of s1) &&
+      outcome_eqb mf m && list_eqb N.eqb (firstn 4 (shape_of sf)) (firstn 4 (shape_of s1)) &&
       list_eqb (list_eqb tval_eqb) (st_log sf) (st_log s1) &&
       list_eqb tval_eqb (map (tree_of flocq_ops (st_heap sf)) (st_globals sf))
                         (map (tree_of flocq_ops (st_heap s1)) (st_globals s1)) &&
@@ -104,11 +107,15 @@ Definition flat_agrees (debug : bool) (budget : nat) (P : program) (s0 : state) 
   end.
 
 (* codes of a sequence of runs; [s] = state the next run starts from when the VM is reused *)
-Fixpoint check_runs (debug fresh : bool) (P : program) (s : state) (runs : list (N * obs)) : list N :=
+Fixpoint check_runs (debug : bool) (mode : vmmode) (first : bool) (P : program) (s : state) (runs : list (N * obs)) : list N :=
   match runs with
   | [] => []
   | (budget, o) :: rest =>
-      let s0 := if fresh then fresh_state else s in
+      let s0 := match mode with
+                | MFresh => fresh_state
+                | MReuse => s
+                | MReuseClear => if first then s else clear_state s
+                end in
       let '(m, s1) := run flocq_ops (bld_of debug) (N.to_nat budget) P s0 in
       (if flat_agrees debug (N.to_nat budget) P s0 m s1 then [] else [5]) ++
       match outcome_matches m (ob_out o) with
@@ -121,7 +128,7 @@ Fixpoint check_runs (debug fresh : bool) (P : program) (s : state) (runs : list 
               (if globals_match P s1 (ob_globals o) then [] else [1]) ++
               (if log_matches s1 (ob_log o) then [] else [1]) ++
               (if shape_matches s1 (ob_shape o) then [] else [1]) ++
-              check_runs debug fresh P s1 rest
+              check_runs debug mode false P s1 rest
           end
       end
   end.
@@ -153,7 +160,7 @@ Definition op_names : list (list N) :=
 
 Definition check1 (c : vmcase) : list N :=
   match c with
-  | VmProg debug fresh P runs => check_runs debug fresh P fresh_state runs
+  | VmProg debug mode P runs => check_runs debug mode true P fresh_state runs
   | VmOpTable names => if list_eqb (list_eqb N.eqb) names op_names then [] else [4]
   end.
 
